@@ -1,13 +1,13 @@
 SPECIFICATION MCSpec
 CONSTANTS
- N = 2
- Auth = TRUE
- Enc = TRUE
- Chunked = FALSE
- Variant = "select"
- MACLEN = 2
- BLK = 2
- BUFSZ = 6
+ CN = 2
+ CAuth = TRUE
+ CEnc = TRUE
+ CChunked = FALSE
+ CVariant = "select"
+ CMACLEN = 2
+ CBLK = 2
+ CBUFSZ = 6
  Delim = 63
  NoVal <- NoValMC
  Rcv = 1
